@@ -31,7 +31,7 @@ META = {
     ],
     'assumptions': ['A1', 'A7'],
     'not_decided': ['element factories (NumpyTensorSpace.element / ProductSpace.element / DiscretizedSpace.element array conversion paths: NumPy casting and memory sharing)',
-                    'derived-space constructors (astype, real_space / complex_space, byaxis, ProductSpace.__getitem__) and element indexing vs. array indexing',
+                    'derived-space constructors NumpyTensorSpace.byaxis, ProductSpace.__getitem__ (weighting / exponent not handed on: observation in DESIGN 5.3) and element indexing vs. array indexing; _astype, astype chains and DiscretizedSpace.byaxis_in are under contract',
                     'MatrixWeighting, CustomInner / CustomNorm / CustomDist, sparse matrices', 'SetUnion / SetIntersection / FiniteSet with more than 3 members'],
 }
 
